@@ -1,0 +1,46 @@
+//go:build verif
+
+// Verification hooks: export unexported internals to the external verification
+// harness (/verif). Compiled only with `-tags verif`; adds no behaviour.
+
+package hrpc
+
+import (
+	"github.com/tsuna/gohbase/pb"
+)
+
+// Cell type codes.
+const (
+	VerifPutType                 = putType
+	VerifDeleteType              = deleteType
+	VerifDeleteFamilyVersionType = deleteFamilyVersionType
+	VerifDeleteColumnType        = deleteColumnType
+	VerifDeleteFamilyType        = deleteFamilyType
+)
+
+// VerifCellblockLen exposes cellblockLen.
+func VerifCellblockLen(rowLen, familyLen, qualifierLen, valueLen int) int {
+	return cellblockLen(rowLen, familyLen, qualifierLen, valueLen)
+}
+
+// VerifAppendCellblock exposes appendCellblock.
+func VerifAppendCellblock(row []byte, family, qualifier string, value []byte, ts uint64,
+	typ byte, cbs []byte) []byte {
+	return appendCellblock(row, family, qualifier, value, ts, typ, cbs)
+}
+
+// VerifCellFromCellBlock exposes cellFromCellBlock.
+func VerifCellFromCellBlock(b []byte) (*pb.Cell, uint32, error) { return cellFromCellBlock(b) }
+
+// VerifDeserializeCellBlocks exposes deserializeCellBlocks.
+func VerifDeserializeCellBlocks(b []byte, n uint32) ([]*pb.Cell, uint32, error) {
+	return deserializeCellBlocks(b, n)
+}
+
+// VerifValuesToCellblocks exposes (*Mutate).valuesToCellblocks.
+func (m *Mutate) VerifValuesToCellblocks() ([]byte, int32, uint32) { return m.valuesToCellblocks() }
+
+// VerifValuesToProto exposes (*Mutate).valuesToProto.
+func (m *Mutate) VerifValuesToProto(ts *uint64) []*pb.MutationProto_ColumnValue {
+	return m.valuesToProto(ts)
+}
